@@ -133,6 +133,20 @@ impl RequestHandler<Rename> for RenameHandler {
         match def_ty {
             DefinitionType::Filename(_) => Ok(None),
             DefinitionType::Symbol(def_symbol_nx) => {
+                // A file that is imported more than once is assembled once per import: what it defines exists once per
+                // import as well, at one and the same place in the source. They are all renamed, since they are all
+                // that one name in the source.
+                let siblings: Vec<(mos_core::codegen::SymbolIndex, mos_core::codegen::Definition)> = match &def.location {
+                    Some(location) => codegen
+                        .analysis()
+                        .symbol_definitions_at(location.span)
+                        .into_iter()
+                        .map(|(nx, def)| (nx, def.clone()))
+                        .collect(),
+                    None => vec![(def_symbol_nx, def.clone())],
+                };
+                let mut all_edits = vec![];
+                for (def_symbol_nx, def) in siblings {
                 if let Some(location) = &def.location {
                     // First, determine all the query steps for every usage
                     let steps = def
@@ -254,6 +268,13 @@ impl RequestHandler<Rename> for RenameHandler {
                             });
                             !unchanged
                         })
+                        .collect_vec();
+                    all_edits.extend(changes);
+                }
+                }
+                if !all_edits.is_empty() {
+                    let changes = all_edits
+                        .into_iter()
                         // The same location may be used from several scopes (a macro that is invoked more than once, a
                         // loop), which should still result in a single edit
                         .unique_by(|(uri, edit)| {
